@@ -760,6 +760,254 @@ example : ∀ σ', ¬ ExecCs noMacros [.exprstmt (.shift "<<" (.lit 1 false "") 
       rw [h] at this; cases this
   exact Sem.bare_undefined_not_ignored hm
 
+/-! ### the widened carve-out (branch `carve-wider`): conditions `!x` / `a && b` / `a || b`, constant `?:` -/
+
+/-- `{ uiV; EA = (RsV + uiV); if ((!(PvV & 1))) { mem_store_u8(EA, ((int8_t)((RtV >> (0 * 8)) & 0xff))); } else { {
+    STORE_SLOT_CANCELLED(pkt, slot); } } }`: the shipped `S2_pstorerbf_io` as `harness/elab.py` delivers it (the nested
+    block of the else-arm is spliced) — the shape of every predicated store/load with a negated predicate -/
+def s2_pstorerbf_io : List CStmt :=
+  [.exprstmt (.imm "u" false),
+   .assign (.var "EA" utT) "=" (.bin "+" (.reg "RsV" .src ⟨true, 32⟩) (.imm "u" false)),
+   .ite (.not (.bin "&" (.reg "PvV" .src ⟨true, 8⟩) (.lit 1 false "")))
+     [.store 8 (.cast ⟨true, 8⟩ (.bin "&" (.shift ">>" (.reg "RtV" .src ⟨true, 32⟩) (.bin "*" (.lit 0 false "") (.lit 8 false "")))
+        (.lit 255 true "")))]
+     (some [.skip "STORE_SLOT_CANCELLED(pkt, slot);"])]
+
+/-- the condition `!(PvV & 1)`: outside the VALUE carve-out (the code types it `int8`-promoted-to-`int` like its operand,
+    the repaired lowering as a BOOL), inside the CONDITION carve-out; the two lowerings do give it different types -/
+def notPv : CExpr := .not (.bin "&" (.reg "PvV" .src ⟨true, 8⟩) (.lit 1 false ""))
+def envW : CEnv := { assigned := [], cfg := Cfg.fixed }
+example : CarveESem [] notPv = false ∧ CarveCSem envW notPv = true := by decide +kernel
+example : (compileExpr (codeEnv envW) notPv).toOption.map (·.ty) = some ⟨true, 32, 1⟩ ∧
+    (compileExpr (fixedEnv envW) notPv).toOption.map (·.ty) = some ⟨false, 1, gBool⟩ := by decide +kernel
+/-- `&&` / `||` of two such operands, or of two comparisons, are conditions too; as values they stay outside.  (A `&&`
+    whose operands get DIFFERENT types from the code — a comparison and a `!x` — is excluded as before: `logSafeSem`.) -/
+def notPt : CExpr := .not (.bin "&" (.reg "PtV" .src ⟨true, 8⟩) (.lit 1 false ""))
+example : CarveCSem envW (.log "&&" notPv notPt) = true ∧
+    CarveCSem envW (.log "||" (.cmp "==" T3.rs T3.rt) (.cmp "<" T3.rs (.imm "u" false))) = true ∧
+    CarveCSem envW (.not (.log "||" (.cmp "==" T3.rs T3.rt) (.cmp "<" T3.rs (.imm "u" false)))) = true ∧
+    CarveESem [] (.log "||" (.cmp "==" T3.rs T3.rt) (.cmp "<" T3.rs (.imm "u" false))) = false ∧
+    CarveCSem envW (.log "&&" notPv (.cmp "<" T3.rs (.imm "u" false))) = false := by decide +kernel
+/-- what `if`/`for` accepted before is still accepted (`Sem.carveCSem_of_carveESem`); a condition that is not a
+    `BooleanOp`/`CompareOp` object but carries the copied BOOL flag is still excluded: `if ((RsV < uiV) + 0)`-like values
+    are outside already as values; a widening conversion inside the condition is outside: `if (!((uint64_t)RsV))` -/
+example : CarveCSem envW (.cmp "<" T3.rs (.imm "u" false)) = true ∧ CarveCSem envW T3.rs = true ∧
+    CarveCSem envW (.not T3.eCast) = false := by decide +kernel
+
+/-- the certificate holds for the predicated store (it was false before: `CarveProgSem` failed on the condition) -/
+theorem s2_pstorerbf_io_certified : certifiedSem s2_pstorerbf_io = true := by decide +kernel
+example : certified s2_pstorerbf_io = false := by decide +kernel
+
+/-- `uiV = 8`, predicate register `Pv = 2` (bit 0 clear: the store happens), every other register `0x1234` -/
+def pstore_state : MState :=
+  { (default : MState) with imm := fun _ => 8, cur := fun k => if k == "Pv_op" then 2 else 0x1234 }
+/-- the same with `Pv = 1`: the slot is cancelled -/
+def pstore_state_t : MState :=
+  { (default : MState) with imm := fun _ => 8, cur := fun k => if k == "Pv_op" then 1 else 0x1234 }
+
+def finalMem (a : Nat) : Except Stuck MState → Option Nat
+  | .ok σ => some (σ.mem a)
+  | .error _ => none
+
+/-- all hypotheses of `certifiedSem_correct` hold together for `S2_pstorerbf_io` from `pstore_state`; its conclusion
+    follows, and the EMITTED effect stores the byte `0x34` at `0x1234 + 8` -/
+example : ∃ eff σC' σIL', compileProgH Cfg.asCode s2_pstorerbf_io = .ok eff ∧ ExecCs noMacros s2_pstorerbf_io pstore_state σC' ∧
+    ExecIL noMacros eff pstore_state σIL' ∧ StRel σC' σIL' ∧ σIL'.mem 0x123c = 0x34 ∧ σIL'.stores = [0x123c] := by
+  obtain ⟨eff, hcomp⟩ := isOk_elim (x := compileProgH Cfg.asCode s2_pstorerbf_io) (by decide +kernel)
+  obtain ⟨σC', hC⟩ := isOk_elim (x := execCs noMacros 6 s2_pstorerbf_io pstore_state) (by decide +kernel)
+  have hex : ExecCs noMacros s2_pstorerbf_io pstore_state σC' := ExecCs_iff.2 ⟨6, hC⟩
+  obtain ⟨σIL', hx, hrel⟩ := Sem.certifiedSem_correct T3.msOK_trivial s2_pstorerbf_io_certified hcomp rfl (fun _ _ => rfl) hex
+  have hmem : finalMem 0x123c (execCs noMacros 6 s2_pstorerbf_io pstore_state) = some 0x34 := by decide +kernel
+  have hst : (match execCs noMacros 6 s2_pstorerbf_io pstore_state with | .ok σ => some σ.stores | .error _ => none) = some [0x123c] := by
+    decide +kernel
+  rw [hC] at hmem hst
+  simp only [finalMem, Option.some.injEq] at hmem hst
+  exact ⟨eff, σC', σIL', hcomp, hex, hx, hrel, by rw [← hrel.mem]; exact hmem, by rw [← hrel.stores]; exact hst⟩
+
+/-- … and from `pstore_state_t` (predicate true) the emitted effect cancels the slot and stores nothing -/
+example : ∃ eff σC' σIL', compileProgH Cfg.asCode s2_pstorerbf_io = .ok eff ∧ ExecCs noMacros s2_pstorerbf_io pstore_state_t σC' ∧
+    ExecIL noMacros eff pstore_state_t σIL' ∧ StRel σC' σIL' ∧ σIL'.stores = [] ∧
+    lookupS "$slot_cancelled" σIL'.locals = some (.bool true) := by
+  obtain ⟨eff, hcomp⟩ := isOk_elim (x := compileProgH Cfg.asCode s2_pstorerbf_io) (by decide +kernel)
+  obtain ⟨σC', hC⟩ := isOk_elim (x := execCs noMacros 6 s2_pstorerbf_io pstore_state_t) (by decide +kernel)
+  have hex : ExecCs noMacros s2_pstorerbf_io pstore_state_t σC' := ExecCs_iff.2 ⟨6, hC⟩
+  obtain ⟨σIL', hx, hrel⟩ := Sem.certifiedSem_correct T3.msOK_trivial s2_pstorerbf_io_certified hcomp rfl (fun _ _ => rfl) hex
+  have hst : (match execCs noMacros 6 s2_pstorerbf_io pstore_state_t with | .ok σ => some σ.stores | .error _ => none) = some [] := by
+    decide +kernel
+  have hsl : finalLocal "$slot_cancelled" (execCs noMacros 6 s2_pstorerbf_io pstore_state_t) = some (.bool true) := by decide +kernel
+  rw [hC] at hst hsl
+  simp only [Option.some.injEq] at hst
+  exact ⟨eff, σC', σIL', hcomp, hex, hx, hrel, by rw [← hrel.stores]; exact hst, hrel.locals _ _ hsl⟩
+
+/-- a loop whose condition is a `&&`: `{ int i; for (i = 0; ((i < 2) && (RsV != RtV)); i++) { RdV = i; } }` -/
+def for_and : List CStmt :=
+  [.decl ⟨false, 32⟩ "i" none,
+   .for_ "i" (.log "&&" (.cmp "<" (.var "i" utT) (.lit 2 false "")) (.cmp "!=" T3.rs T3.rt)) 0
+     [.assign (.reg "RdV" .dst ⟨true, 32⟩) "=" (.var "i" utT)]]
+example : certifiedSem for_and = true := by decide +kernel
+
+/-! #### constant-condition `?:` (QEMU's `fSXTN(N, M, VAL)` = `((N) != 0) ? sextract64(VAL, 0, N) : 0LL`, `fZXTN` with
+    `extract64`): accepted when the live arm already has the common type of both arms (`liveKeepsTy`) -/
+
+/-- `{ RddV = ((16 != 0) ? sextract64(RssV, 0, 16) : 0LL); }` — both arms `int64_t` (accepted before as well) -/
+def fsxtn : List CStmt :=
+  [.assign (.reg "RddV" .dst ⟨true, 64⟩) "=" (.tern (.cmp "!=" (.lit 16 false "") (.lit 0 false ""))
+     (.macro "sextract64" [.reg "RssV" .src ⟨true, 64⟩, .lit 0 false "", .lit 16 false ""] ⟨true, 64⟩ [⟨false, 64⟩, ⟨true, 32⟩, ⟨true, 32⟩])
+     (.lit 0 false "LL"))]
+theorem fsxtn_certified : certifiedSem fsxtn = true := by decide +kernel
+
+/-- `{ RddV = ((8 != 0) ? extract64(RssV, 0, 8) : 0LL); }` — live arm `uint64_t`, dead arm `int64_t`: the common type is
+    the live arm's, nothing is dropped; NEW (the arms have different types) -/
+def fzxtn : List CStmt :=
+  [.assign (.reg "RddV" .dst ⟨true, 64⟩) "=" (.tern (.cmp "!=" (.lit 8 false "") (.lit 0 false ""))
+     (.macro "extract64" [.reg "RssV" .src ⟨true, 64⟩, .lit 0 false "", .lit 8 false ""] ⟨false, 64⟩ [⟨false, 64⟩, ⟨true, 32⟩, ⟨true, 32⟩])
+     (.lit 0 false "LL"))]
+theorem fzxtn_certified : certifiedSem fzxtn = true := by decide +kernel
+
+/-- the shipped `S2_insertp_rp` exactly as `harness/elab.py` delivers it — `{ int width = ((6 != 0) ? extract64(((int64_t)
+    ((int32_t)((RttV >> (1 * 32)) & 0x0ffffffffLL))), 0, 6) : 0LL); int offset = ((7 != 0) ? sextract64(…, 0, 7) : 0LL);
+    size8u_t mask = ((1LL << width) - 1); if ((offset < 0)) { RxxV = 0; } else { RxxV &= (~(mask << offset)); RxxV |=
+    ((RssV & mask) << offset); } }` — is certified now (`fZXTN`: live `uint64_t`, dead `int64_t`) -/
+def s2_insertp_rp : List CStmt :=
+  [.decl ⟨true, 32⟩ "width" (some (.tern (.cmp "!=" (.lit 6 false "") (.lit 0 false ""))
+     (.macro "extract64" [.cast ⟨true, 64⟩ (.cast ⟨true, 32⟩ (.bin "&" (.shift ">>" (.reg "RttV" .src ⟨true, 64⟩)
+        (.bin "*" (.lit 1 false "") (.lit 32 false ""))) (.lit 4294967295 true "LL"))), .lit 0 false "", .lit 6 false ""]
+        ⟨false, 64⟩ [⟨false, 64⟩, ⟨true, 32⟩, ⟨true, 32⟩]) (.lit 0 false "LL"))),
+   .decl ⟨true, 32⟩ "offset" (some (.tern (.cmp "!=" (.lit 7 false "") (.lit 0 false ""))
+     (.macro "sextract64" [.cast ⟨true, 64⟩ (.cast ⟨true, 32⟩ (.bin "&" (.shift ">>" (.reg "RttV" .src ⟨true, 64⟩)
+        (.bin "*" (.lit 0 false "") (.lit 32 false ""))) (.lit 4294967295 true "LL"))), .lit 0 false "", .lit 7 false ""]
+        ⟨true, 64⟩ [⟨false, 64⟩, ⟨true, 32⟩, ⟨true, 32⟩]) (.lit 0 false "LL"))),
+   .decl ⟨false, 64⟩ "mask" (some (.bin "-" (.shift "<<" (.lit 1 false "LL") (.var "width" ⟨true, 32⟩)) (.lit 1 false ""))),
+   .ite (.cmp "<" (.var "offset" ⟨true, 32⟩) (.lit 0 false ""))
+     [.assign (.reg "RxxV" .rw ⟨true, 64⟩) "=" (.lit 0 false "")]
+     (some [.assign (.reg "RxxV" .rw ⟨true, 64⟩) "&=" (.un "~" (.shift "<<" (.var "mask" ⟨false, 64⟩) (.var "offset" ⟨true, 32⟩))),
+      .assign (.reg "RxxV" .rw ⟨true, 64⟩) "|=" (.shift "<<" (.bin "&" (.reg "RssV" .src ⟨true, 64⟩) (.var "mask" ⟨false, 64⟩))
+        (.var "offset" ⟨true, 32⟩))])]
+theorem s2_insertp_rp_certified : certifiedSem s2_insertp_rp = true := by decide +kernel
+
+/-- the side condition on the compiled arms: live `uint64_t` / dead `int64_t` is inside, live `int32_t` / dead
+    `uint64_t` (`1 ? RsV : 1ULL`, the listed finding) and live `int64_t` / dead `uint64_t` are outside, arms narrower than
+    `int` are outside -/
+example :
+    liveKeepsTy true { il := .btrue, ty := ⟨false, 64, 1⟩, kind := .plain } { il := .btrue, ty := ⟨true, 64, 1⟩, kind := .lit 0 } = true ∧
+    liveKeepsTy false { il := .btrue, ty := ⟨false, 64, 1⟩, kind := .plain } { il := .btrue, ty := ⟨true, 64, 1⟩, kind := .lit 0 } = false ∧
+    liveKeepsTy true { il := .btrue, ty := ⟨true, 32, 1⟩, kind := .plain } { il := .btrue, ty := ⟨false, 64, 1⟩, kind := .lit 1 } = false ∧
+    liveKeepsTy true { il := .btrue, ty := ⟨true, 64, 1⟩, kind := .plain } { il := .btrue, ty := ⟨true, 32, 1⟩, kind := .lit 1 } = true ∧
+    liveKeepsTy true { il := .btrue, ty := ⟨true, 16, 1⟩, kind := .plain } { il := .btrue, ty := ⟨true, 16, 1⟩, kind := .plain } = false := by
+  decide
+example : certifiedSem [.assign (.reg "RddV" .dst ⟨true, 64⟩) "=" (.tern (.lit 1 false "") (.reg "RsV" .src ⟨true, 32⟩) (.lit 1 false "ULL"))]
+    = false := by decide +kernel
+
+/-- NOT certified, and rightly so: `((16 != 0) ? sextract64(RsV, 0, 16) : 0LL)` with the 32-bit `RsV`.  The `?:` is fine
+    (both arms `int64_t`); what differs is the ARGUMENT: `sextract64` takes a `uint64_t`, the code zero-extends the signed
+    `RsV` (`CAST(64, IL_FALSE, …)`), C sign-extends it.  The macro is uninterpreted in the theorems (`MacroSem`), so the
+    two calls cannot be shown equal (they are, for the real `sextract64`, because only bits 0…15 are read). -/
+def fsxtn32 : List CStmt :=
+  [.assign (.reg "RdV" .dst ⟨true, 32⟩) "=" (.tern (.cmp "!=" (.lit 16 false "") (.lit 0 false ""))
+     (.macro "sextract64" [.reg "RsV" .src ⟨true, 32⟩, .lit 0 false "", .lit 16 false ""] ⟨true, 64⟩ [⟨false, 64⟩, ⟨true, 32⟩, ⟨true, 32⟩])
+     (.lit 0 false "LL"))]
+example : certifiedSem fsxtn32 = false ∧
+    CarveNsSem [] [.reg "RsV" .src ⟨true, 32⟩] [⟨false, 64⟩] = false ∧
+    ternSafeSem (.lit 1 false "") { il := .btrue, ty := ⟨false, 1, gBool⟩, kind := .boolLit true }
+      { il := .btrue, ty := ⟨true, 64, 1⟩, kind := .plain } { il := .btrue, ty := ⟨true, 64, 1⟩, kind := .lit 0 } = true := by
+  decide +kernel
+
+/-! an interpretation of `extract64` / `sextract64` (the theorems are stated for EVERY interpretation satisfying `MsOK`;
+    with `noMacros` a macro call is undefined in C, so the instances below need a defined one) -/
+
+/-- macros are told apart by their RzIL name, so that the C name and the RzIL name mean the same -/
+def xKey (name : String) : Nat :=
+  if macroRzName name == "EXTRACT64" then 1 else if macroRzName name == "SEXTRACT64" then 2 else 0
+
+/-- `extract64(v, s, l)` = bits `s … s+l-1` of `v`; `sextract64` sign-extends them from bit `l-1` -/
+def msX : MacroSem := fun name vs =>
+  match xKey name, vs with
+  | 1, [.bv _ v, .bv _ st, .bv _ l] => some (.bv 64 (BitVec.ofNat 64 ((v.toNat >>> st.toNat) % 2 ^ l.toNat)))
+  | 2, [.bv _ v, .bv _ st, .bv _ l] => some (.bv 64 ((BitVec.ofNat l.toNat (v.toNat >>> st.toNat)).signExtend 64))
+  | _, _ => none
+
+/-- the macros of the table that return a bit-vector, with the width -/
+def bvRows : List (String × Nat) :=
+  Gen.macroRows.filterMap (fun r => match r with | (n, _, some (.bv w), _) => some (n, w) | _ => none)
+
+theorem mem_bvRows {name : String} {w : Nat} (h : macroRetW name = some w) : (name, w) ∈ bvRows := by
+  unfold macroRetW at h
+  split at h
+  · next n rz w' ps hf =>
+    simp only [Option.some.injEq] at h
+    subst h
+    have hm := List.mem_of_find?_eq_some hf
+    have hn := List.find?_some hf
+    simp only [beq_iff_eq] at hn
+    subst hn
+    unfold bvRows
+    rw [List.mem_filterMap]
+    exact ⟨_, hm, rfl⟩
+  · cases h
+
+theorem bvRows_ok : bvRows.all (fun p => xKey (macroRzName p.1) == xKey p.1 && (xKey p.1 == 0 || p.2 == 64)) = true := by
+  decide +kernel
+
+theorem msOK_msX : MsOK msX := by
+  intro name w h
+  have hrow := List.all_eq_true.1 bvRows_ok _ (mem_bvRows h)
+  simp only [Bool.and_eq_true, Bool.or_eq_true, beq_iff_eq] at hrow
+  obtain ⟨hk, hw⟩ := hrow
+  refine ⟨fun vs => by unfold msX; rw [hk], fun vs v hv => ?_⟩
+  unfold msX at hv
+  split at hv
+  · next hkey =>
+    have : w = 64 := by rcases hw with h0 | h0; · rw [hkey] at h0; cases h0
+                        · exact h0
+    subst this
+    simp only [Option.some.injEq] at hv
+    exact ⟨_, hv.symm⟩
+  · next hkey =>
+    have : w = 64 := by rcases hw with h0 | h0; · rw [hkey] at h0; cases h0
+                        · exact h0
+    subst this
+    simp only [Option.some.injEq] at hv
+    exact ⟨_, hv.symm⟩
+  · cases hv
+
+/-- every register `0x8234` (bit 15 set) -/
+def fxtn_state : MState := { (default : MState) with cur := fun _ => 0x8234 }
+
+/-- all hypotheses of `certifiedSem_correct` hold together for `fzxtn` from `fxtn_state` under `msX`; its conclusion
+    follows, and the EMITTED effect writes `extract64(0x8234, 0, 8) = 0x34` to `Rdd` -/
+example : ∃ eff σC' σIL', compileProgH Cfg.asCode fzxtn = .ok eff ∧ ExecCs msX fzxtn fxtn_state σC' ∧
+    ExecIL msX eff fxtn_state σIL' ∧ StRel σC' σIL' ∧ σIL'.written "Rdd_op" = true ∧ σIL'.new "Rdd_op" = 0x34 := by
+  obtain ⟨eff, hcomp⟩ := isOk_elim (x := compileProgH Cfg.asCode fzxtn) (by decide +kernel)
+  obtain ⟨σC', hC⟩ := isOk_elim (x := execCs msX 5 fzxtn fxtn_state) (by decide +kernel)
+  have hex : ExecCs msX fzxtn fxtn_state σC' := ExecCs_iff.2 ⟨5, hC⟩
+  obtain ⟨σIL', hx, hrel⟩ := Sem.certifiedSem_correct msOK_msX fzxtn_certified hcomp rfl (fun _ _ => rfl) hex
+  have hnew : finalNew "Rdd_op" (execCs msX 5 fzxtn fxtn_state) = some 0x34 := by decide +kernel
+  rw [hC] at hnew
+  simp only [finalNew] at hnew
+  split at hnew
+  · rename_i hw
+    refine ⟨eff, σC', σIL', hcomp, hex, hx, hrel, ?_, ?_⟩
+    · rw [← hrel.written]; exact hw
+    · rw [← hrel.new]; exact Option.some.inj hnew
+  · cases hnew
+
+/-- the same for `fsxtn` (`fSXTN(16, 64, RssV)`): the emitted effect writes the sign-extended half-word -/
+example : ∃ eff σC' σIL', compileProgH Cfg.asCode fsxtn = .ok eff ∧ ExecCs msX fsxtn fxtn_state σC' ∧
+    ExecIL msX eff fxtn_state σIL' ∧ StRel σC' σIL' ∧ σIL'.written "Rdd_op" = true ∧ σIL'.new "Rdd_op" = 0xffffffffffff8234 := by
+  obtain ⟨eff, hcomp⟩ := isOk_elim (x := compileProgH Cfg.asCode fsxtn) (by decide +kernel)
+  obtain ⟨σC', hC⟩ := isOk_elim (x := execCs msX 5 fsxtn fxtn_state) (by decide +kernel)
+  have hex : ExecCs msX fsxtn fxtn_state σC' := ExecCs_iff.2 ⟨5, hC⟩
+  obtain ⟨σIL', hx, hrel⟩ := Sem.certifiedSem_correct msOK_msX fsxtn_certified hcomp rfl (fun _ _ => rfl) hex
+  have hnew : finalNew "Rdd_op" (execCs msX 5 fsxtn fxtn_state) = some 0xffffffffffff8234 := by decide +kernel
+  rw [hC] at hnew
+  simp only [finalNew] at hnew
+  split at hnew
+  · rename_i hw
+    refine ⟨eff, σC', σIL', hcomp, hex, hx, hrel, ?_, ?_⟩
+    · rw [← hrel.written]; exact hw
+    · rw [← hrel.new]; exact Option.some.inj hnew
+  · cases hnew
+
 /-- non-vacuity of the expression- and statement-level theorems (`sortOK_fixed`, `expr_sem`, `cond_sem`, `decl_sem`,
     `assign_sem`, `store_sem`, `jump_sem`, `stmt_sem_both`): a consistent context, a typed state, and carved,
     well-formed expressions and statements that are OUTSIDE the syntactic carve-out -/
